@@ -248,6 +248,9 @@ REF_OPS = [("set", "s1"), ("set", "bx"), ("set", "rh"), ("disconnect", None), ("
            ("chain", "h2"), ("h1drop", None),
            # a connect-by-call that fails part-way (its second argument is not connectable), is caught, and is followed by more edits
            ("badcall", "rh"), ("badcall", "s1"),
+           # a connectable *type* written for an instance of it (`inst.a = h.NoConn`, parentheses forgotten): refused, and the
+           # instance must be left usable
+           ("badclass", None),
            # a slip of the pen - a bundle member / a port of h1 that does not exist - which a later `set` corrects
            ("settypo", "bundle"), ("settypo", "port"),
            # an instance tied to the same object that never becomes part of the module, or is replaced under its name
@@ -364,6 +367,18 @@ def _ref_one(item):
                 bad = getattr(ns["b1" if mode == "a" else "bA"], "no_such_member") if op[1] == "bundle" else getattr(ns["h1"], "no_such_port")
                 setattr(i, port, bad)
                 final["i"] = "typo"
+            elif op[0] == "badclass":
+                before = dict(i.conns)
+                try:
+                    setattr(i, port, h.NoConn)
+                    return dict(kind="op", detail="connecting the NoConn *type* did not raise")
+                except Exception:
+                    pass
+                if dict(i.conns) != before and not (set(i.conns) <= {port} and all(not isinstance(c, type) for c in i.conns.values())):
+                    return dict(kind="conns", detail=f"after the refused connection of a type, conns is {dict(i.conns)!r:.80}")
+                if port not in i.conns:
+                    final["i"] = None
+                continue
             elif op[0] == "badcall":
                 v = objs[op[1]] if op[1] != "rh" else getattr(ns["h1"], port)
                 before = dict(i.conns)
